@@ -259,6 +259,9 @@ pub struct Plan {
     /// per-mille chance of a yield right before each channel send/receive inside rdest
     #[serde(default)]
     pub sched_yield_pm: u32,
+    /// tuning knob: bounded mpsc channels inside rdest get at most this many slots
+    #[serde(default)]
+    pub chan_cap: Option<usize>,
     pub disk_fail_writes: Vec<u64>,
     pub disk_fail_reads: Vec<u64>,
     /// disk full: every piece write from this ordinal on fails
